@@ -23,6 +23,8 @@ CORPORA = {
     'partial': [('partial', 'a/N-b|c/X c/Y|a'), ('tokenized', 'c//Z ab/N')],
     'absent': [('tokenized', 'a b/T a'), ('tokenized', 'b a/U')],
     # occurrences without any context feature: a token that is the whole sentence; a tag seen only there
+    # ambiguous tokens whose tags are first seen in NON-lexicographic order (candidate order vs. classifier columns)
+    'unsorted-tags': [('tokenized', 'ab/V c/Y ab/N'), ('tokenized', 'c/X a b/P')],
     'single-token': [('tokenized', 'a/S'), ('tokenized', 'b/N a/T c'), ('tokenized', 'c/K')],
 }
 TAGDICT = {'none': [], 'dict': [('tokenized', 'zz/D1/D2 ab/Q c')]}
@@ -215,7 +217,16 @@ def make(e, progs, job):
                     continue
                 if pi >= len(probs) or probs[pi]['result'] != 'ok':
                     return
-                m = probs[pi]['model']; pi += 1
+                m = probs[pi]['model']
+                # which learner label stands for which TAG: read off the captured training problem (the i-th example of this problem is the i-th
+                # occurrence, in corpus order, that carries a tag in category j) — independent of the order in which the model lists the candidates
+                prob = probs[pi].get('problem')
+                pi += 1
+                exs_j = [tl[j] for tl, _ in exs if j < len(tl) and tl[j] is not None]
+                name_of = {}
+                if prob is not None and len(getattr(prob, 'ys', [])) == len(exs_j):
+                    for y, t in zip(prob.ys, exs_j):
+                        name_of[int(y)] = t
                 # feature ids of this problem: first-seen order over the examples that carry a tag in category j
                 fid = {}
                 for tl, feats in exs:
@@ -231,7 +242,8 @@ def make(e, progs, job):
                 mult = wmax / float(T.QMAX)
                 per = [None] * len(cl)
                 for li, lab in enumerate(m.labels):
-                    per[lab] = (T.quantize(coef(m.no, 0, li, m), mult), {f: T.quantize(coef(m.no, k, li, m), mult) for f, k in fid.items()})
+                    pos = cl.index(name_of[lab]) if lab in name_of and name_of[lab] in cl else lab
+                    per[pos] = (T.quantize(coef(m.no, 0, li, m), mult), {f: T.quantize(coef(m.no, k, li, m), mult) for f, k in fid.items()})
                 classes.extend(per)
             qtab[tok] = classes
         # evaluation
@@ -390,4 +402,34 @@ def confirm(sc, replay):
                 g = slots[j] if j < len(slots) else None
                 if (len(cl) == 0 and g is not None) or (len(cl) >= 1 and g not in cl):
                     bad.append('tagging respects the observed candidates')
+    if not bad:
+        # the classifier clause, natively: the real learner separates the training occurrences of these tiny corpora, so re-tagging the training sentences
+        # with their gold boundaries must give every ambiguous token occurrence its gold tag (confirmation heuristic, run only after the engine found the
+        # stored scores attached to other candidates than the learned ones)
+        wrong = []
+        for kind, ctext in CORPORA[job['corpus']]:
+            if kind != 'tokenized':
+                continue
+            raw, labels, flat, nt0 = py_sentence(kind, ctext)
+            if nt0 == 0:
+                continue
+            ops = [{'op': 'model', 'id': 'dummy', 'data': None}] if False else []
+            ops = list(sc['ops'][:1]) + [{'op': 'predictor', 'id': 'p', 'model': 'm', 'tags': True}, {'op': 'sentence', 'id': 's', 'kind': 'raw', 'text': raw},
+                                         {'op': 'predict', 's': 's', 'p': 'p'}, {'op': 'set_boundaries', 's': 's', 'b': labels}, {'op': 'fill_tags', 's': 's'}, {'op': 'observe', 's': 's'}]
+            rr = replay.run(ops)
+            ob2 = rr[-1]
+            if not isinstance(ob2, dict) or 'tags' not in ob2 or not isinstance(ob2['tags'], list):
+                continue
+            nt2 = ob2['n_tags']
+            for (s0, e0) in expected_tokens(labels):
+                tm = got.get(raw[s0:e0])
+                if tm is None:
+                    continue
+                gold = flat[(e0 - 1) * nt0:e0 * nt0]
+                pred = ob2['tags'][(e0 - 1) * nt2:e0 * nt2] if nt2 else []
+                for j, cl in enumerate(tm['tags']):
+                    if len(cl) >= 2 and j < len(gold) and gold[j] is not None and (j >= len(pred) or pred[j] != gold[j]):
+                        wrong.append('%s: gold %r, natively trained model gives %r' % (raw[s0:e0], gold[j], pred[j] if j < len(pred) else None))
+        if wrong:
+            bad.append('stored tag scores equal the learned quantised classifier (native: training occurrences are not reproduced: %s)' % '; '.join(wrong[:3]))
     return bool(bad), {'native_violations': sorted(set(bad))[:5]}
